@@ -94,6 +94,13 @@ def decodeVertex {α : Type} (input : Option (List (Option (String × Cell α)))
     | .error e => .error e
     | .ok (v, rest) => if strictEnd && !rest.isEmpty then .error .trailing else .ok v
 
+/-- one record of the vertex file through the decoder, as the csv reader sees it (`Row.bad` = the
+record does not decode); composes the decoder with the loader's `CsvFile.rows` -/
+def decodeVertexRow {α : Type} (entries : List (String × Cell α)) : Row (Vertex α) :=
+  match decodeVertex (some (entries.map some)) false with
+  | .ok v => .ok v
+  | .error _ => .bad
+
 /-! ### `DefaultGraphBuilder::build` -/
 
 inductive CfgErr where
